@@ -7,9 +7,4 @@ MCWorlds == << [n |-> ("Coins" :> 2 @@ "ContractsState" :> 3 @@ "ProcessedTransa
 MCWorldsBig == << [n |-> ("Coins" :> 3 @@ "ContractsState" :> 4 @@ "ProcessedTransactions" :> 2), h |-> 2],
                   [n |-> ("Coins" :> 1 @@ "ContractsState" :> 0 @@ "ProcessedTransactions" :> 0), h |-> 0] >>
 View == vars
-\* every interruption the model can take, printed once per distinct (kind, worker, group, point)
-EmitCrash ==
-  IF act'.name = "Fail" THEN PrintT(<<"CRASH", ToJson(act')>>)
-  ELSE IF act'.name = "Cancel" THEN PrintT(<<"CRASH", ToJson([name |-> "Cancel", ws |-> ws, pos |-> pos])>>)
-  ELSE TRUE
 =============================================================================
